@@ -113,6 +113,35 @@ pub fn affine_case(cx: &mut Ctx, n: u64, case: &Value) {
     let mut pm = poly.clone();
     pm.affine_transform_mut(&t1);
     chk("affine_transform", "Polygon::affine_transform_mut(post)".into(), pts_near(&ext(&pm), &want_post, t), String::new());
+    // every geometry type: the in-place form equals the by-value form (also through the Geometry enum and a collection), and areas
+    // scale by |det| (Rect and Triangle re-normalise their corners, so their signed area stays non-negative)
+    {
+        use geo::{Area, Geometry, GeometryCollection, Line, LineString, MultiLineString, MultiPoint, MultiPolygon, Rect, Triangle};
+        let sq = |x: f64, y: f64, w: f64| LineString::from(vec![(x, y), (x + w, y), (x + w, y + w), (x, y + w), (x, y)]);
+        let gs: Vec<Geometry<f64>> = vec![
+            Geometry::Point(Point::new(1.0, 2.0)), Geometry::Line(Line::new(Coord { x: 0.0, y: 1.0 }, Coord { x: 3.0, y: 2.0 })),
+            Geometry::LineString(LineString::from(vec![(0.0, 0.0), (2.0, 1.0), (3.0, 3.0)])), Geometry::Polygon(Polygon::new(sq(0.0, 0.0, 4.0), vec![sq(1.0, 1.0, 1.0)])),
+            Geometry::MultiPoint(MultiPoint::new(vec![Point::new(0.0, 0.0), Point::new(2.0, 3.0)])),
+            Geometry::MultiLineString(MultiLineString::new(vec![LineString::from(vec![(0.0, 0.0), (1.0, 1.0)]), LineString::from(vec![(2.0, 0.0), (2.0, 2.0), (3.0, 1.0)])])),
+            Geometry::MultiPolygon(MultiPolygon::new(vec![Polygon::new(sq(0.0, 0.0, 1.0), vec![]), Polygon::new(sq(2.0, 2.0, 2.0), vec![])])),
+            Geometry::Rect(Rect::new(Coord { x: 1.0, y: 1.0 }, Coord { x: 3.0, y: 4.0 })), Geometry::Triangle(Triangle::new(Coord { x: 1.0, y: 1.0 }, Coord { x: 5.0, y: 1.0 }, Coord { x: 1.0, y: 4.0 })),
+        ];
+        let mut all = gs.clone();
+        all.push(Geometry::GeometryCollection(GeometryCollection::new_from(gs.clone())));
+        let det = (post[0] * post[4] - post[1] * post[3]).abs();
+        for g in &all {
+            let by_value = g.affine_transform(&t1);
+            let mut in_place = g.clone();
+            in_place.affine_transform_mut(&t1);
+            let a0 = g.unsigned_area();
+            // (a Rect stays an axis-parallel Rect under any map - documented - so its area only scales under axis-preserving maps)
+            let has_rect = matches!(g, Geometry::Rect(_) | Geometry::GeometryCollection(_));
+            let ok_area = (has_rect || (by_value.unsigned_area() - det * a0).abs() <= 1e-9 * (det * a0).max(1.0))
+                && match &by_value { Geometry::Rect(r) => r.signed_area() >= 0.0, Geometry::Triangle(t) => t.signed_area() >= -1e-9 * (1.0 + det * a0), _ => true };
+            chk("in_place_equals_by_value", format!("{g:?}").chars().take(40).collect(), by_value == in_place, format!("in place {in_place:?} by value {by_value:?}").chars().take(300).collect());
+            chk("transformed_area", format!("{g:?}").chars().take(40).collect(), ok_area, format!("{by_value:?} area {} want {}", by_value.unsigned_area(), det * a0).chars().take(300).collect());
+        }
+    }
     let forms: Vec<(&str, Polygon<f64>)> = match name {
         "translated" => { let mut m = poly.clone(); m.translate_mut(f("dx"), f("dy")); vec![("translate", poly.translate(f("dx"), f("dy"))), ("translate_mut", m)] }
         "scaled" => {
